@@ -1126,6 +1126,9 @@ def scenario_fault(c):
                     hit()
                     return False
                 extra["callback"] = cb
+            if c.get("jac"):
+                # finite-difference gradient: the objective's faults then also fall inside a difference sweep
+                extra["jac"] = None if c["jac"] == "none" else c["jac"]
             return L, extra, cnt
         for kind in kinds:
             L0, extra0, cnt0 = build(kind, None)
@@ -1134,7 +1137,7 @@ def scenario_fault(c):
                 bad.setdefault("no_exception", "clean run with a %s callable raised %r" % (kind, clean["exc"]))
                 continue
             ncalls = dict(fun=len(clean["fcalls"]), jac=len(clean["gcalls"])).get(kind, cnt0["n"])
-            for idx in sorted({0, 1, ncalls - 1} & set(range(ncalls))):
+            for idx in sorted(({0, 1, ncalls - 1} | ({2, 3, 4} if c.get("jac") else set())) & set(range(ncalls))):
                 for et in etypes:
                     err = et("user failure #%d" % idx)
                     L1, extra1, _ = build(kind, (idx, err))
